@@ -153,8 +153,8 @@ class BcWorld(World):
             op["dup_ok"] = bool(rng.random() < 0.5)
         elif name == "load":
             op["kind"] = ["neumann", "lineLoad", "surfLoad", "volumeLoad"][int(rng.integers(4))] if self.actor != "Beam" else "neumann"
-            # distributed loads only on node sets that bound loaded elements (a load that loads nothing raises
-            # ZeroDivisionError in BoundaryCondition.__init__ -- a C09 matter, recorded as an observation in DESIGN.md)
+            # distributed loads on the entities of the mesh (node sets that bound no loaded element contribute nothing:
+            # see finding distributed-load-on-part-without-loaded-element, found and fixed through engine mpi)
             if op["kind"] == "neumann":
                 op["sel"] = self._gen_sel(rng)
             elif op["kind"] == "volumeLoad":
